@@ -95,7 +95,8 @@ def scan(ctx, report, facts, config, pfx="C19"):
             if c.local:
                 continue   # a helper of the crate that is handed the map: its own body is in the cone and is looked at there
             ty = I.recv_ty(t)
-            if "AHashMap<std::string::String" in ty or "HashMap<std::string::String" in ty or "HashMap::<std::string::String" in c.inst_path:
+            # the builder's name map: names to system ids (another String-keyed map somewhere in the crate is not it)
+            if ("SystemId" in ty or "SystemId" in c.inst_path) and ("AHashMap<std::string::String" in ty or "HashMap<std::string::String" in ty or "HashMap::<std::string::String" in c.inst_path):
                 names_used.add(c.name)
     allowed = set(["get", "entry", "contains_key", "deref", "deref_mut", "len", "is_empty", "insert"])
     report.ob(pfx + ".NOHASHITER", "name-map-api", names_used <= allowed, "name map used through %s" % sorted(names_used), site=add.loc(), config=config)
